@@ -207,6 +207,14 @@ impl FromStr for Calendar {
     }
 }
 
+/// ISO 8601 week numbering: weeks start on Monday and week 1 is the week
+/// that has at least four of its days in the new year.
+fn iso_week_calculator() -> WeekCalculator {
+    let mut week_calculator = WeekCalculator::default();
+    week_calculator.min_week_days = 4;
+    week_calculator
+}
+
 // ==== Public `CalendarSlot` methods ====
 
 impl Calendar {
@@ -440,7 +448,7 @@ impl Calendar {
     pub fn week_of_year(&self, iso_date: &IsoDate) -> TemporalResult<Option<u16>> {
         if self.is_iso() {
             let date = iso_date.to_icu4x();
-            let week_calculator = WeekCalculator::default();
+            let week_calculator = iso_week_calculator();
             let week_of = date.week_of_year(&week_calculator);
             return Ok(Some(week_of.week as u16));
         }
@@ -453,7 +461,7 @@ impl Calendar {
         if self.is_iso() {
             let date = iso_date.to_icu4x();
 
-            let week_calculator = WeekCalculator::default();
+            let week_calculator = iso_week_calculator();
 
             let week_of = date.week_of_year(&week_calculator);
 
